@@ -775,6 +775,9 @@ def flat_units(x):
 
 
 def replay(ctx, path):
+    if open(path).read(64).startswith("property C04 (instruction-level guard"):
+        from props import C04_xslt
+        return C04_xslt.replay(ctx, path)
     load_variant()
     core.build_lib("plain")
     impl, ok_h, hlog = core.build_harness("ser", "plain")
